@@ -68,7 +68,7 @@ claim("C14", "call-graph reachability (class-hierarchy resolution) + panic-site 
       "claim is only that the set does not grow. (c) Termination: each of the loops in workspace code reachable from those entry points is driven by an "
       "iterator / worklist, counts a growing length or a stepped index, or terminates under a recorded precondition that every reachable caller "
       "establishes by rejecting the other values before the call; a worklist loop marks (visited set / status slot) what it expands before pushing; "
-      "the call sites of validation routines on the path do not disappear; every validator of the data of a const type fixes the number of data arguments by an equality test; a division or remainder by a value taken from the program is preceded by a test of that value. Termination of recursion, of loops inside external crates and memory bounds beyond (a) are not decided. Two genuine panics found by (b) in the "
+      "the call sites of validation routines on the path do not disappear; every validator of the data of a const type fixes the number of data arguments by an equality test; a division or remainder by a value taken from the program is preceded by a test of that value. No Result whose error type is the rejection type of specialisation (SpecializationError) is unwrapped on the path. Termination of recursion, of loops inside external crates and memory bounds beyond (a) are not decided. Two genuine panics found by (b) in the "
       "ap-change computation, a non-terminating worklist in the circuit type specialisation "
       "and five unchecked offset / ap-change computations in sierra-to-casm were repaired in /repo (fix: commits 938a2fe, aa8782c, 17c99da, e0b62af, 327cf5e, 9110ec8, 0885174, 7fd95f8, 93583bd, be5a9dc, bd4cefe, 9c431a5, 2cbb2b3); "
       "the i64 overflow of the legacy equation solver and the i32 overflow of the gas cost arithmetic are recorded known findings.",
